@@ -145,8 +145,32 @@ func genDedup(g *gen, repo string) {
 	pr := funcDecl(f, "Conn", "processResponse")
 	prParams := drParamNames(pr)
 	adds := drCallsIn(pr, "cc.addResponseToCache")
-	if len(adds) != 2 {
-		fail("processResponse: expected two addResponseToCache calls (bare ACK, response), found %d", len(adds))
+	// the switch of processResponse: first arm = isPongOrResetResponse(w) (empty / reset reply); does it cache the reply?
+	emptyCached := false
+	armSeen := false
+	ast.Inspect(pr, func(x ast.Node) bool {
+		if cc, ok := x.(*ast.CaseClause); ok && len(cc.List) == 1 && len(drCallsIn(cc.List[0], "isPongOrResetResponse")) == 1 {
+			armSeen = true
+			n := 0
+			for _, st := range cc.Body {
+				n += len(drCallsIn(st, "cc.addResponseToCache"))
+			}
+			emptyCached = n == 1
+			if n > 1 {
+				fail("processResponse: empty/reset arm stores more than once")
+			}
+		}
+		return true
+	})
+	if !armSeen {
+		fail("processResponse: isPongOrResetResponse arm not found")
+	}
+	want := 2
+	if emptyCached {
+		want = 3
+	}
+	if len(adds) != want {
+		fail("processResponse: expected %d addResponseToCache calls (empty/reset reply if cached, bare ACK, response), found %d", want, len(adds))
 	}
 	var storeReq bool
 	switch {
@@ -275,6 +299,7 @@ func genDedup(g *gen, repo string) {
 	fmt.Fprintf(&b, "/-- udp/client/conn.go: ExchangeLifetime, in nanoseconds (value computed by the Go compiler) -/\ndef exchangeLifetimeNs : Nat := %d\n", int64(udpclient.ExchangeLifetime))
 	fmt.Fprintf(&b, "/-- checkResponseCache looks the reply up under the request's message ID (AST) -/\ndef lookupKeyIsRequestMID : Bool := %s\n", drLeanBool(lookupReq))
 	fmt.Fprintf(&b, "/-- processResponse/addResponseToCache store the reply under the request's message ID (false: under the reply's own MID) (AST) -/\ndef storeKeyIsRequestMID : Bool := %s\n", drLeanBool(storeReq))
+	fmt.Fprintf(&b, "/-- processResponse caches an empty (code 0.00) or reset reply like any other reply (AST) -/\ndef emptyReplyCached : Bool := %s\n", drLeanBool(emptyCached))
 	fmt.Fprintf(&b, "/-- handleReq takes msgIDMutex.Lock(req.MessageID()) with a deferred Unlock before check/handle/store (AST) -/\ndef handleReqLockedPerMID : Bool := %s\n", drLeanBool(locked))
 	fmt.Fprintf(&b, "/-- checkMyMessageID: applies to confirmable messages only; distance guard and jump; NewConnWithOpts initial offset (AST) -/\ndef midGuard : Nat := %d\ndef midJump : Nat := %d\ndef midInitOffset : Nat := %d\n", guard, jump, initOff)
 	b.WriteString("\nend CoapVerif.Generated.Dedup\n")
